@@ -111,8 +111,8 @@ void reference_check(Ledger &L, int iloop) {
       for (int hop = 0; hop < 20000000; ++hop, ++hops) {
         const int d = (int)ref.interact(p, in_dir);
         if (getenv("EION_DEBUG_ID") &&
-            (uint64_t)atol(getenv("EION_DEBUG_ID")) == s.id && hop < 6)
-          fprintf(stderr, "  hop %d in_dir %d -> out %d pos(cells) %.6f %.6f %.6f tau_left %.6g\n",
+            (uint64_t)atol(getenv("EION_DEBUG_ID")) == s.id)
+          fprintf(stderr, "  hop %d in_dir %d -> out %d pos(cells) %.15f %.15f %.15f tau_left %.17g\n",
                   hop, in_dir, d,
                   (p.get_position()[0] - c.anchor[0]) / L.lay.cell[0],
                   (p.get_position()[1] - c.anchor[1]) / L.lay.cell[1],
@@ -269,16 +269,29 @@ void reference_check(Ledger &L, int iloop) {
     }
     double rp[3] = {p.get_position()[0], p.get_position()[1],
                     p.get_position()[2]};
+    // A wall crossing displaced by geom inside an opaque cell changes the
+    // optical depth sum by geom x (opacity there); the absorption point, in a
+    // possibly far more transparent cell, then moves by that divided by the
+    // opacity of the absorbing cell. Bound the ratio with the largest opacity
+    // on the grid for this packet's cross sections.
+    double kap_max = 0.;
+    for (size_t gi = 0; gi < ncells; ++gi) {
+      double kap = L.snap_density[gi] * L.snap_xH[gi] * s.sigma[ION_H_n];
+#ifdef HAS_HELIUM
+      kap += L.snap_density[gi] * L.snap_xHe[gi] * s.sigma[ION_He_n];
+#endif
+      kap_max = std::max(kap_max, kap);
+    }
+    auto slack_for = [&](const double kap) {
+      if (!(kap > 0.))
+        return celld;
+      return std::min(celld, geom * std::max(1., kap_max / kap) + dtau / kap);
+    };
     double slack = geom; // allowed displacement of the absorption point (m)
-    if (outcome == 0) {
-      const double kap = kappa_near(rp);
-      slack = geom + (kap > 0. ? std::min(celld, dtau / kap) : celld);
-    }
-    if (s.outcome == 0) {
-      const double kap = kappa_near(s.end_pos);
-      slack = std::max(slack,
-                       geom + (kap > 0. ? std::min(celld, dtau / kap) : celld));
-    }
+    if (outcome == 0)
+      slack = slack_for(kappa_near(rp));
+    if (s.outcome == 0)
+      slack = std::max(slack, slack_for(kappa_near(s.end_pos)));
     if (outcome == 0) {
       // budget for the estimator comparison: the displaced piece of path may
       // be credited to the absorbing cell or to a cell next to it
